@@ -119,7 +119,23 @@ fn logistic_params() -> Vec<Param> {
         free("max_iterations", "linfa-logistic/src/hyperparams.rs:86 no documented range", vec![(Sym::U(0), "zero"), (Sym::U(1), "one"), (Sym::U(100), "default")]),
         free("with_intercept", "linfa-logistic/src/hyperparams.rs:80 bool", vec![(Sym::B(true), "true"), (Sym::B(false), "false")]),
         // finite initial parameters (non-finite ones are outside the property); shape errors are raised by fit
-        free("initial_params", "linfa-logistic/src/hyperparams.rs:100 optional start point, guard: must be finite (hyperparams.rs:47); constructor-time choice of the point", vec![(Sym::S("unset"), "unset"), (Sym::S("finite"), "finite")]),
+        // array-valued parameter: every FINITE entry is in range whatever its magnitude (guard hyperparams.rs:47
+        // "any entry not finite"); valid extremes: all entries MAX (their sum overflows), MAX with a small
+        // entry, all entries -MAX, MIN_POSITIVE, subnormal, -0.0. No training call with the huge ones.
+        Param {
+            name: "initial_params",
+            src: "linfa-logistic/src/hyperparams.rs:100 optional start point; error.rs:27 \"Initial parameters must be finite\"; constructor-time choice of the point",
+            vals: vec![
+                (Sym::S("unset"), "unset", V, false),
+                (Sym::S("finite"), "finite", V, false),
+                (Sym::S("all_max"), "all_entries_max_finite", V, true),
+                (Sym::S("max_and_one"), "max_finite_and_one", V, true),
+                (Sym::S("all_neg_max"), "all_entries_neg_max_finite", V, true),
+                (Sym::S("min_positive"), "min_positive", V, false),
+                (Sym::S("subnormal"), "subnormal", V, false),
+                (Sym::S("neg_zero"), "neg_zero", V, false),
+            ],
+        },
     ]
 }
 
@@ -128,6 +144,8 @@ fn logistic_err_param(e: &str) -> Option<&'static str> {
         Some("alpha")
     } else if e.contains("InvalidGradientTolerance") {
         Some("gradient_tolerance")
+    } else if e.contains("InvalidInitialParameters") {
+        Some("initial_params")
     } else {
         None
     }
@@ -162,8 +180,22 @@ macro_rules! logistic_impl {
             let ds = Dataset::new(xmat::<$f>(), Array1::from_shape_fn(8, |i| labels[i]));
             let base = || {
                 let p = $builder::<$f>::default();
-                if case.s("initial_params") == "finite" {
-                    p.initial_params(($init)(case.b("with_intercept")))
+                if case.s("initial_params") != "unset" {
+                    let tag = case.s("initial_params").to_string();
+                    let mut arr = ($init)(case.b("with_intercept"));
+                    let n = arr.len();
+                    for (i, v) in arr.iter_mut().enumerate() {
+                        *v = match tag.as_str() {
+                            "all_max" => <$f>::MAX,
+                            "max_and_one" => if i + 1 == n { 1.0 } else { <$f>::MAX },
+                            "all_neg_max" => -<$f>::MAX,
+                            "min_positive" => <$f>::MIN_POSITIVE,
+                            "subnormal" => <$f>::from_bits(1),
+                            "neg_zero" => -0.0,
+                            _ => 0.125,
+                        };
+                    }
+                    p.initial_params(arr)
                 } else {
                     p
                 }
